@@ -289,8 +289,15 @@ func runC04(c *Case, budget int, res *CaseResult) {
 				data, merr = json.Marshal(v.Interface())
 			}()
 			if merr != nil {
+				// the generated wrappers fail on this value (C02's business); the document the column must
+				// admit is still defined: the wire format of C02, written by the reference encoder
 				res.Counts["marshal-failed(C02)"]++
-				return
+				ref, rerr := c.Ref(v)
+				if rerr != nil {
+					return
+				}
+				data = []byte(canonJSON(ref))
+				res.Counts["reference-document-used"]++
 			}
 			doc, derr := decodeJSON(data)
 			if derr != nil {
